@@ -11,6 +11,8 @@ import hashlib
 import os
 import typing as t
 
+from .normalise import normalise
+
 
 class AnalysisError(Exception):
     """The analyser could not decide (vanished anchor, unmodelled construct ...).
@@ -149,6 +151,7 @@ class Program:
                 tree = ast.parse(raw, filename=path)
             except SyntaxError as exc:
                 raise AnalysisError(f"{path} does not parse: {exc}") from exc
+            normalise(tree)
             mi = ModuleInfo(short, path, f"src/someip/{short}.py", tree, raw.decode("utf-8", "replace"))
             self.modules[short] = mi
         self.digest = h.hexdigest()
